@@ -40,6 +40,9 @@ macro_rules! rect { ($reg:expr, $p:expr, $R:ty, $A:ty, $V:ty, $d:expr, $into_aab
     ep!($reg, format!("{}_aab_from_rect", p), n, |a| { let r: $R = Flat::rd(a); Out::of(<$A>::from(r).flat()) });
     ep!($reg, format!("{}_position", p), n, |a| { let r: $R = Flat::rd(a); Out::of(r.position().flat()) });
     ep!($reg, format!("{}_extent", p), n, |a| { let r: $R = Flat::rd(a); Out::of(r.extent().flat()) });
+    ep!($reg, format!("{}_set_position", p), n + d, |a| { let mut r: $R = Flat::rd(&a[..n]); let v: $V = Flat::rd(&a[n..]); r.set_position(v); Out::of(r.flat()) });
+    ep!($reg, format!("{}_set_extent", p), n + d, |a| { let mut r: $R = Flat::rd(&a[..n]); let v: $V = Flat::rd(&a[n..]); r.set_extent(v.into()); Out::of(r.flat()) });
+    ep!($reg, format!("{}_position_extent", p), n, |a| { let r: $R = Flat::rd(a); let (q, e) = r.position_extent(); let mut o = q.flat(); o.extend(e.flat()); Out::of(o) });
     ep!($reg, format!("{}_contains_point", p), n + d, |a| { let r: $R = Flat::rd(&a[..n]); let v: $V = Flat::rd(&a[n..]); Out::flag(r.contains_point(v)) });
     ep!($reg, format!("{}_contains_rect", p), 2 * n, |a| { let r: $R = Flat::rd(&a[..n]); let s: $R = Flat::rd(&a[n..]); Out::flag(r.$contains_rect(s)) });
     ep!($reg, format!("{}_collides_with_rect", p), 2 * n, |a| { let r: $R = Flat::rd(&a[..n]); let s: $R = Flat::rd(&a[n..]); Out::flag(r.$collides(s)) });
